@@ -20,6 +20,7 @@ type senderStream struct {
 	useLatestPacket bool
 
 	// data from rtp packets
+	started         bool
 	lastRTPTimeRTP  uint32
 	lastRTPTimeTime time.Time
 	lastRTPSN       uint16
@@ -40,17 +41,18 @@ func (stream *senderStream) processRTP(now time.Time, header *rtp.Header, payloa
 	defer stream.m.Unlock()
 
 	diff := header.SequenceNumber - stream.lastRTPSN
-	if stream.useLatestPacket || stream.packetCount == 0 || (diff > 0 && diff < (1<<15)) {
+	if stream.useLatestPacket || !stream.started || (diff > 0 && diff < (1<<15)) {
 		// Told to consider every packet, or this was the first packet, or it's in-order
 		stream.lastRTPSN = header.SequenceNumber
 		// update only on first packet of a frame to ensure sender report does not get affected by
 		// processing delay of pushing a large frame which could span multiple packets
-		if stream.packetCount == 0 || header.Timestamp != stream.lastRTPTimeRTP {
+		if !stream.started || header.Timestamp != stream.lastRTPTimeRTP {
 			stream.lastRTPTimeRTP = header.Timestamp
 			stream.lastRTPTimeTime = now
 		}
 	}
 
+	stream.started = true
 	stream.packetCount++
 	stream.octetCount += uint32(len(payload)) //nolint:gosec // G115
 }
